@@ -58,6 +58,7 @@ def search(ctx):
 
     K.search_c15(ctx, FCHK_FREE, ctx.n(150, 800) * mult)
     K.corpus_cycles(ctx)
+    K.json_variant_cycles(ctx)
     from . import _w; _w.search(ctx)  # second group of formats (FCIDUMP text, POSCAR text, FCHK objects, WFN/WFX, QCSchema)
 
 
